@@ -324,16 +324,52 @@ Section Pipeline.
   Definition set_base_label (p : profile) : profile :=
     set_samples p (map (fun s => set_label_of s (assoc_set base_key ["true"%string] (s_label s))) (p_sample p)).
 
+  (* -------------------------------------------------------------- chunkedGrab (fetch.go:165-200) *)
+  (* the sources of one side are fetched and combined 128 at a time; the combination of every
+     further chunk is combined with what has been accumulated so far *)
+  Definition chunk_size : nat := 128.
+
+  Fixpoint chunks_fuel {A} (fuel n : nat) (l : list A) : list (list A) :=
+    match fuel with
+    | O => []
+    | S f => match l with
+             | [] => []
+             | _ => firstn n l :: chunks_fuel f n (skipn n l)
+             end
+    end.
+  Definition chunks {A} (n : nat) (l : list A) : list (list A) := chunks_fuel (S (List.length l)) n l.
+
+  Fixpoint grab_rest (acc : profile) (cs : list (list profile)) : res profile :=
+    match cs with
+    | [] => Ok acc
+    | c :: r => match combine_profiles c with
+                | Err e => Err e
+                | Ok q => match combine_profiles [acc; q] with
+                          | Err e => Err e
+                          | Ok acc' => grab_rest acc' r
+                          end
+                end
+    end.
+
+  Definition chunked_grab (ps : list profile) : res profile :=
+    match chunks chunk_size ps with
+    | [] => combine_profiles ps
+    | c0 :: r => match combine_profiles c0 with
+                 | Err e => Err e
+                 | Ok p => grab_rest p r
+                 end
+    end.
+
   (* -------------------------------------------------------------- fetchProfiles *)
   (* grabSourcesAndBases + base labelling: the combined source and the combined (labelled) base *)
   Definition fetch_pre (diffbase : bool) (srcs bases : list profile) : res (profile * option profile) :=
-    match combine_profiles srcs with
+    match chunked_grab srcs with
     | Err e => Err ("src:" ++ e)
     | Ok p =>
         match bases with
         | [] => Ok (p, None)
         | _ =>
-            match combine_profiles bases with
+            match chunked_grab bases with
             | Err e => Err ("base:" ++ e)
             | Ok pb => Ok (p, Some (if diffbase then set_base_label pb else pb))
             end
